@@ -405,7 +405,7 @@ var c17SliceRe = regexp.MustCompile(`^(\$\w+)\[(\d+):\]$`)
 var c17FlagEntryRe = regexp.MustCompile(`^\{ key: \., value: \$\w+\.key \}$`)
 
 func c17ArgsParse(m *c17Model) {
-	ru := m.r.Rule("C17.args", "_args_parse: --flag=value is split at the FIRST '=' (flag = arg[0:i], value = arg[i+1:]); every recursive step consumes exactly the argv entries it used and is guarded by the matching length test; option kinds select the store operation; unknown flags / missing values raise; `--` ends parsing; _flagmap maps short, long and aliases", 38)
+	ru := m.r.Rule("C17.args", "_args_parse: --flag=value is split at the FIRST '=' (flag = arg[0:i], value = arg[i+1:]); every recursive step consumes exactly the argv entries it used and is guarded by the matching length test; option kinds select the store operation; unknown flags / missing values raise; `--` ends parsing; _flagmap maps short, long and aliases", 41)
 	ap := m.def(ru, "_args_parse", 2)
 	if ap == nil {
 		return
@@ -633,6 +633,7 @@ func c17ArgsParse(m *c17Model) {
 		{"short-needs-arg", func(p c17Path) bool { return count(p, OV+" == null", true) == 1 && p.has(OV+".bool", false) }, "combined short flag that needs a value"},
 		{"missing-value", func(p c17Path) bool { return p.has(lenLT2, true) && p.has(OV+".optional", false) }, "value option at the end of argv"},
 		{"missing-pair", func(p c17Path) bool { return p.has(OV+".pairs", true) && p.has(lenGT2, false) }, "pair option with fewer than two values"},
+		{"pair-with-eq", func(p c17Path) bool { return p.has(OV+".pairs", true) && p.has(assignVar, true) }, "pair option given =value"},
 		{"bool-with-eq", func(p c17Path) bool {
 			return p.has(OV+".pairs", false) && p.has(assignVar, true) && p.hasSet(withArgKinds, false)
 		}, "boolean flag given =value"},
